@@ -238,7 +238,7 @@ impl<S: Scanner> System for IsoSys<S> {
                 n.c.reset_all();
             }
         }
-        Step { next: Some(n), obs, violations: v }
+        Step { strict: false, next: Some(n), obs, violations: v }
     }
     fn key(&self, s: &IsoState<S>) -> (u128, u128, u128, u128) {
         (debug_fp(&s.m, s.now, self.cap), debug_fp(&s.a, s.now, self.cap), debug_fp(&s.b, s.now, self.cap), if self.triple { debug_fp(&s.c, s.now, self.cap) } else { 0 })
